@@ -33,7 +33,7 @@ def specs(tier):
                                 out.append({"kind": kind, "is_async": is_async, "dbc": dbc, "levels": levels,
                                             "style": (("def", "lambda", "adef")[idx % 3] if is_async else ("def", "lambda")[idx % 2]),
                                             "err": ("default", "cls", "fac", "inst")[(idx // 2) % 4],
-                                            "cap_alias": bool((idx // 8) % 2), "sibling_contract": sibling})
+                                            "cap_alias": bool((idx // 8) % 2), "sibling_contract": sibling, "err_base": idx % 5 == 3})
     return out
 
 
@@ -71,15 +71,144 @@ def nontrivial(spec, truth, body_mode, mut):
     return bool(truth)
 
 
+# ---------------------------------------------------------------------------------------------------------------
+# pairs: the postcondition of one callable calls ANOTHER contracted callable that bears the same name (the accessors of one
+# property; two functions made by one factory; a function re-defined under the same name): the inner return is gated too
+
+PAIR_SRC = '''\
+import icontract
+LOG = []
+T = {}
+class E_outer(Exception): pass
+class E_inner(Exception): pass
+def _t(n):
+    LOG.append(("post", n))
+    return T.get(n, True)
+def RUN(c):
+    try:
+        while True: c.send(None)
+    except StopIteration as s:
+        return s.value
+# (the conditions are named functions: a violated lambda would be evaluated once more for its message)
+def inner_post(result):
+    return _t("inner")
+def outer_post_reads_p(self):
+    return self.p is not None and _t("outer")
+class K:
+    def __init__(self):
+        self.v = 1
+    @property
+    @icontract.ensure(inner_post, error=E_inner)
+    def p(self):
+        LOG.append(("body", "get"))
+        return self.v
+    @p.setter
+    @icontract.ensure(outer_post_reads_p, error=E_outer)
+    def p(self, value):
+        LOG.append(("body", "set"))
+        self.v = value
+    @p.deleter
+    @icontract.ensure(outer_post_reads_p, error=E_outer)
+    def p(self):
+        LOG.append(("body", "del"))
+def make(tag, other):
+    def post(result):
+        return (other is None or other() is not None) and _t(tag)
+    @icontract.ensure(post, error=E_outer if other else E_inner)
+    def g():
+        LOG.append(("body", tag))
+        return 1
+    return g
+g_inner = make("inner", None)
+g_outer = make("outer", g_inner)
+def amake(tag, other):
+    async def post(result):
+        return (other is None or (await other()) is not None) and _t(tag)
+    @icontract.ensure(post, error=E_outer if other else E_inner)
+    async def g():
+        LOG.append(("body", tag))
+        return 1
+    return g
+ag_inner = amake("inner", None)
+ag_outer = amake("outer", ag_inner)
+@icontract.ensure(inner_post, error=E_inner)
+def h():
+    LOG.append(("body", "inner"))
+    return 1
+h_first = h
+def h_post(result):
+    return h_first() is not None and _t("outer")
+@icontract.ensure(h_post, error=E_outer)
+def h():
+    LOG.append(("body", "outer"))
+    return 1
+class M:
+    @icontract.ensure(inner_post, error=E_inner)
+    def m(self):
+        LOG.append(("body", "inner"))
+        return 1
+def n_post(result):
+    return M().m() is not None and _t("outer")
+class N:
+    @icontract.ensure(n_post, error=E_outer)
+    def m(self):
+        LOG.append(("body", "outer"))
+        return 1
+'''
+PAIRS = {
+    "property_setter_reads_getter": lambda ns: setattr(ns["K"](), "p", 5),
+    "property_deleter_reads_getter": lambda ns: delattr(ns["K"](), "p"),
+    "factory_twins": lambda ns: ns["g_outer"](),
+    "async_factory_twins": lambda ns: ns["RUN"](ns["ag_outer"]()),
+    "redefined_function": lambda ns: ns["h"](),
+    "same_named_methods_of_two_classes": lambda ns: ns["N"]().m(),
+}
+
+
+def check_pairs(acc):
+    ns = core.load_source(PAIR_SRC, "c02p")
+    try:
+        for name, thunk in sorted(PAIRS.items()):
+            for inner in (True, False):
+                for outer in (True, False):
+                    def go():
+                        ns["T"].clear()
+                        ns["T"].update({"inner": inner, "outer": outer})
+                        del ns["LOG"][:]
+                        try:
+                            thunk(ns)
+                            return "ret"
+                        except BaseException as e:
+                            return type(e).__name__
+                    out = core.fresh_ctx_run(go)
+                    log = list(ns["LOG"])
+                    want = "E_inner" if not inner else ("E_outer" if not outer else "ret")
+                    want_posts = [("post", "inner")] + ([("post", "outer")] if inner else [])
+                    acc.case(("pair", name, inner, outer), True, len(log), out)
+                    got_posts = [e for e in log if e[0] == "post"]
+                    if out != want or got_posts != want_posts:
+                        acc.violation(core.Violation(
+                            PROP, "inner_return_not_gated", {"family": "pairs", "pair": name, "inner": inner, "outer": outer},
+                            "{}: the postcondition of the outer callable calls the inner one (inner postcondition {}, outer {}): expected outcome {} and "
+                            "evaluations {}, observed {} and {} (log {})".format(name, inner, outer, want, want_posts, out, got_posts, log),
+                            spec={"pairs": name}, script=PAIR_SRC))
+        acc.sample({"pairs": sorted(PAIRS)}, cap=1)
+    finally:
+        core.unload_source(ns)
+
+
 def work(chunk):
     acc = core.Acc()
     for spec in chunk:
-        famcheck.check_spec(PROP, spec, acc, ROLES, params, symptom_of, nontrivial)
+        if spec == "pairs":
+            check_pairs(acc)
+        else:
+            famcheck.check_spec(PROP, spec, acc, ROLES, params, symptom_of, nontrivial)
     return acc.result()
 
 
 def run(tier, t0):
-    sp = core.rotate(specs(tier))
+    sp = core.rotate(specs(tier)) + ["pairs"]
     tot = core.merge(core.pmap(work, sp))
     return core.finish(
         PROP, tier, tot, t0,
@@ -88,6 +217,9 @@ def run(tier, t0):
              "BaseException subclass, KeyboardInterrupt) x body mutation modes (none/append/rebind); compared: postconditions "
              "evaluated up to the first falsy one with result `is` the returned object, argument identity and post-body content, "
              "OLD; outcome at the caller (`is` the returned / raised object, or the error of the first falsy postcondition); "
+             "every violating call is also made twice in one context (identical observations required); plus 6 pairs of same-named "
+             "callables (accessors of one property, factory twins sync/async, a re-defined function, same-named methods of two classes) where the "
+             "outer postcondition calls the inner callable x truth of (inner, outer) postcondition: the inner return is gated too; "
              "non-trivial = at least one postcondition in effect",
         assumptions=["StopIteration raised by bodies is outside the alphabet (CPython rewrites it for coroutines)"],
         bounds={"programs": len(sp), "max_own_posts": max((0, 1, 2) if tier == "quick" else (0, 1, 2, 3)), "max_levels": 3},
@@ -95,4 +227,12 @@ def run(tier, t0):
 
 
 def replay(path):
+    import json
+    if "pairs" in json.load(open(path))["spec"]:
+        acc = core.Acc()
+        check_pairs(acc)
+        for v in acc.violations:
+            print("VIOLATION property={} replay={}".format(PROP, path))
+            print(" ", v.symptom, v.detail[:600])
+        return 1 if acc.violations else 0
     return famcheck.replay(PROP, path, ROLES, symptom_of)
